@@ -609,3 +609,10 @@ def carry(ev, loop, env, benv, skip=()):
         benv[nme] = ev.symbol(nme + "@carried", isinstance(v, Rat) and v.is_array())
         out.append(nme)
     return out
+
+
+def stray_stores(out, allowed=()) -> list:
+    """Element / slice / masked stores into arrays that a whole-function evaluation did not turn into values (a preallocated array
+    is modelled by its initial content: `a = np.zeros(n); a[mask] = v` still *reads* as zeros).  A rule that decides a function by
+    the value it returns must not trust that value while such stores exist: the names they hit."""
+    return sorted({e.target for e in out.events if e.kind == "store" and e.target not in allowed and e.target != "cache"})
